@@ -61,9 +61,12 @@ def unary_operands(field, seed, tier):
     m, bits = FIELDS[field]
     n = bits // 64
     A = operands(field, seed, tier)
+    half = [v for v in alpha.half_limb_product(m, n, rich=(tier == "thorough" and field == "fr")) if v < m]
     if tier == "thorough":
         lv = 9 if field == "fr" else 5
-        A = alpha.dedup(A + [v for v in alpha.limb_product(m, n, lv) if v < m])
+        A = alpha.dedup(A + [v for v in alpha.limb_product(m, n, lv) if v < m] + half)
+    else:
+        A = alpha.dedup(A + half[:: max(1, len(half) // 400)] + [v for v in half if abs(v - m // 2) < 2**70][:200])
     return A
 
 
